@@ -35,6 +35,14 @@ CHECKS = {
                      "Transport's Sink and ~1400 partitions of a five-frame stream through its Stream; FramingTrace.tla decodes each performative with the "
                      "reference decoder and evaluates the same clauses on what the code wrote / read.",
                 note="trusted: harness frame-header parser, performative extent finder and payload pattern; Transport is driven through its public bind / set_*_max_frame_size API"),
+    "C07": dict(technique="TLC model check of session flow control in serial arithmetic modulo 8 (SessionWin.tla, safety + leads-to) incl. the negative check of the code's deviation; TLC-enumerated send / flow / incoming-transfer scripts (SessGen.tla) executed lock-step against the real client for id spaces at 0, 2^31 and just below 2^32; traces validated by the TLA+ observer",
+                design="4/C07",
+                text="MC: window safety w.r.t. the last processed flow, FIFO, no loss / duplication, accounting and drain (held frames leave once the window is known "
+                     "open) for every interleaving of submit / emit / peer flow (any window 0..2, any reached next-incoming-id) and ids wrapping mod M. "
+                     "Conformance: every script of depth 3 (thorough 4) over a 10-event alphabet x 3 (4) id spaces; the observer evaluates C07_WindowSafety, "
+                     "C07_Fifo, C07_Accounting_Out/In per frame and C07_Drain at every quiescence point, in the strict (per-frame) reading and against the named "
+                     "deviation model of the open finding.",
+                note="trusted: lock-step quiescence (a transfer that is not on the wire at Quiesce is held back); payload-to-message matching in the harness"),
     "C12": dict(technique="TLC model check of the 2.4.6 connection state machine (ConnLife.tla, safety + leads-to under fairness); TLC-enumerated event scripts (ConnGen.tla) executed lock-step against the real client and listener; recorded traces validated by the TLA+ observer (Endpoint.tla / EndpointTrace.tla)",
                 design="4/C12",
                 text="MC: header first, one open before anything else, at most one close, nothing after it, no action on frames outside OPENED, peer close ~> close "
